@@ -98,6 +98,7 @@ ROLES = {
     "funcwithcomp": "def {N}(a1, b1=2):\n    return [e1 + a1 for e1 in range(b1)]\n{F}print({N}(1), c0)\n",
 }
 _OL = re.compile(r"__ol_[A-Za-z0-9_]+")
+_SUFFIXED = re.compile(r"^__ol_[a-z]+_([a-z]{10})$")
 FIXED_HELPERS = ("__ol_iter_wrapper",)
 
 
@@ -150,11 +151,12 @@ class SuffixMonitor(object):
             d.append("the fresh-name generator handed out the same suffix twice within one conversion")
         allowed = set(self.handed)
         for name in set(_OL.findall(text)):
-            if name in FIXED_HELPERS:
-                continue
-            suf = name.rsplit("_", 1)[-1]
-            if suf not in allowed and not _fixed_reserved(name):
-                d.append("helper name %s carries no fresh suffix of this conversion" % name)
+            m = _SUFFIXED.match(name)
+            if m is None:
+                continue      # a fixed reserved helper (no random part): allowed by the property
+            if m.group(1) not in allowed:
+                d.append("helper name %s carries a suffix that was not handed out during this conversion "
+                         "(left over from an earlier one?)" % name)
         return d
 
 
@@ -162,6 +164,11 @@ class SuffixMonitor(object):
 # one logical temporary that appears as the comprehension variable and as the parameter of the
 # takewhile predicate (two scopes that cannot interfere)
 MULTI_SITE = ("retv", "ret", "break", "interrupt", "while", "augass")  # augass: loaded value, rebound by the fallback
+# Only temporaries that by their nature hold the value of ONE statement are required to be bound at
+# one site: a second binding site means two statements (or two levels of one pattern) share the
+# name. Other purposes are not constrained, so a refactoring that introduces a new helper that is
+# legitimately assigned in several places does not raise an alarm.
+SINGLE_SITE = ("assign", "sllice", "augobj", "mod", "for")
 
 
 def binding_site_diffs(text):
@@ -188,7 +195,7 @@ def binding_site_diffs(text):
     for n, c in sorted(sites.items()):
         parts = n.split("_")
         purpose = parts[3] if len(parts) > 4 else ""
-        if c > 1 and purpose not in MULTI_SITE and not _fixed_reserved(n):
+        if c > 1 and purpose in SINGLE_SITE and _SUFFIXED.match(n):
             out.append("temporary %s is bound at %d different sites of one output (two temporaries share a name)" % (n, c))
     return out
 
